@@ -11,6 +11,7 @@ pub mod c07;
 pub mod c08;
 pub mod c09;
 pub mod c10;
+pub mod c11;
 pub mod c12;
 
 pub fn bind_or_die() {
@@ -44,6 +45,7 @@ pub fn run(id: &str, tier: Tier) -> i32 {
         "C08" => c08::run(tier),
         "C09" => { bind_or_die(); c09::run(tier) }
         "C10" => { bind_or_die(); c10::run(tier) }
+        "C11" => c11::run(tier),
         "C12" => { bind_or_die(); c12::run(tier) }
         _ => {
             eprintln!("unknown check {}", id);
@@ -67,6 +69,7 @@ pub fn replay(id: &str, v: &Value) -> i32 {
         "C08" => c08::replay,
         "C09" => c09::replay,
         "C10" => c10::replay,
+        "C11" => c11::replay,
         "C12" => c12::replay,
         _ => {
             eprintln!("no replay for {}", id);
